@@ -6,6 +6,7 @@ import (
 	"encoding/binary"
 	"errors"
 	"fmt"
+	"github.com/klauspost/compress/zstd"
 	"hash/fnv"
 	"io"
 	"math/rand/v2"
@@ -210,6 +211,39 @@ func runC05(t *testing.T, c *choice.Stream, r *Result, opt RunOpt) {
 			// slightly longer than the previous payload and incompressible: the
 			// compressor's buffers are just too small for it
 			p = c.Bytes("payload.grow.bytes", len(frames[i-1].payload)+1+c.Draw("payload.grow.by", 24))
+		}
+		if m == compress.ZSTD && c.Bool("foreign", 1, 4) {
+			// a frame of another writer of the format (a server, at whatever level
+			// and window it was configured with): valid, but not what the library's
+			// own encoder would have produced
+			if i == 0 && nf == 1 && c.Bool("foreign.big", 1, 6) {
+				p = make([]byte, c.Pick("foreign.big.n", 8<<20+1, 9<<20, 20<<20))
+				for j := range p {
+					p[j] = byte(j>>9) ^ byte(j*7)
+				}
+			}
+			lv := []zstd.EncoderLevel{zstd.SpeedFastest, zstd.SpeedDefault, zstd.SpeedBetterCompression}[c.Weighted("foreign.level", 3, 3, 1)]
+			opts := []zstd.EOption{zstd.WithEncoderLevel(lv)}
+			win := c.Pick("foreign.window", 0, 0, 1<<10, 1<<16, 1<<20, 1<<23, 1<<24, 1<<25, 1<<27)
+			if win > 0 {
+				opts = append(opts, zstd.WithWindowSize(win))
+			}
+			single := c.Bool("foreign.single", 1, 3)
+			if single {
+				opts = append(opts, zstd.WithSingleSegment(true))
+			}
+			fb, err := refproto.EncodeFrameZstd(p, opts...)
+			if err != nil {
+				panic(err)
+			}
+			frames = append(frames, c05Frame{off: len(stream), end: len(stream) + len(fb), payload: p})
+			stream = append(stream, fb...)
+			meths = append(meths, fmt.Sprintf("foreign-zstd/%v/w%d/s%v/%dB", lv, win, single, len(p)))
+			r.Probe("foreign_zstd_frame")
+			if len(p) > 8<<20 {
+				r.Probe(fmt.Sprintf("foreign_zstd_frame_over_8MiB/w%d/s%v", win, single))
+			}
+			continue
 		}
 		if err := w.Compress(p); err != nil {
 			r.Violate("compress-failed", "compress-failed", "Compress of %d bytes with %v failed: %v", len(p), m, err)
